@@ -1254,8 +1254,129 @@ fn gen_scenario(rng: &mut Rng, id: String, max_steps: usize) -> History {
 }
 
 
+// Scenarios for worlds with same-named units in two libraries (missing units that arrive in either
+// order) and for `use lib.all` combined with the direct instantiation of a secondary unit
+// (entity(architecture)) whose file is edited in place so that only positions move.
+fn gen_scenario2(rng: &mut Rng, id: String, max_steps: usize) -> History {
+    let mut libraries: BTreeMap<String, Vec<String>> = BTreeMap::new();
+    let mut initial: BTreeMap<String, String> = BTreeMap::new();
+    let lints = rng.chance(9, 10);
+    let mut steps: Vec<Step> = Vec::new();
+    let n = std::cmp::max(1, std::cmp::min(max_steps, 2 + rng.below(5)));
+    if rng.chance(1, 2) {
+        // one user of lib_b.X and lib_c.X (same unit name); the two definitions come and go independently
+        let first_b = rng.chance(1, 2);
+        let (t1, t2, user): (String, String, String);
+        let secondary = rng.chance(2, 5);
+        if !secondary {
+            t1 = "package pkg is\n  constant c1 : integer := 1;\nend package;\n".into();
+            t2 = "package pkg is\n  constant c2 : integer := 2;\nend package;\n".into();
+            let (l1, l2) = if first_b {
+                ("lib_b.pkg.c1", "lib_c.pkg.c2")
+            } else {
+                ("lib_c.pkg.c2", "lib_b.pkg.c1")
+            };
+            user = match rng.below(3) {
+                0 => format!("library lib_b;\nlibrary lib_c;\npackage user0 is\n  constant x1 : integer := {l1};\n  constant x2 : integer := {l2};\nend package;\n"),
+                1 => format!("library lib_b;\nlibrary lib_c;\nuse {l1};\nuse {l2};\npackage user0 is\n  constant x : integer := c1 + c2;\nend package;\n"),
+                _ => format!("library lib_b;\nlibrary lib_c;\nentity user0 is\nend entity;\narchitecture a of user0 is\n  signal s1 : integer := {l1};\n  signal s2 : integer := {l2};\nbegin\nend architecture;\n"),
+            };
+            libraries.insert("lib_b".into(), vec!["p1.vhd".into()]);
+            libraries.insert("lib_c".into(), vec!["p2.vhd".into()]);
+        } else {
+            let e = "entity ent is\n  port (a : in bit; q : out bit);\nend entity;\n";
+            t1 = "architecture a1 of ent is\nbegin\n  q <= a;\nend architecture;\n".into();
+            t2 = "architecture a1 of ent is\nbegin\n  q <= not a;\nend architecture;\n".into();
+            let (l1, l2) = if first_b { ("lib_b", "lib_c") } else { ("lib_c", "lib_b") };
+            user = format!("library lib_b;\nlibrary lib_c;\nentity user0 is\nend entity;\narchitecture a of user0 is\n  signal s, t1, t2 : bit;\nbegin\n  u1 : entity {l1}.ent(a1) port map (a => s, q => t1);\n  u2 : entity {l2}.ent(a1) port map (a => s, q => t2);\nend architecture;\n");
+            libraries.insert("lib_b".into(), vec!["e1.vhd".into(), "p1.vhd".into()]);
+            libraries.insert("lib_c".into(), vec!["e2.vhd".into(), "p2.vhd".into()]);
+            initial.insert("e1.vhd".into(), e.into());
+            initial.insert("e2.vhd".into(), e.into());
+        }
+        libraries.insert("lib_a".into(), vec!["user.vhd".into(), "w.vhd".into()]);
+        initial.insert("user.vhd".into(), user);
+        initial.insert(
+            "w.vhd".into(),
+            if rng.chance(1, 2) { "package w9 is\n  constant c9 : integer := 9;\nend package;\n".into() } else { String::new() },
+        );
+        let mut present = [rng.chance(1, 2), rng.chance(1, 2)];
+        initial.insert("p1.vhd".into(), if present[0] { t1.clone() } else { String::new() });
+        initial.insert("p2.vhd".into(), if present[1] { t2.clone() } else { String::new() });
+        let mut seen = [present[0], present[1]];
+        while steps.len() < n {
+            // prefer: make both missing, then let one of them come back
+            let i = if present[0] && present[1] { rng.below(2) } else if present[0] { 0 } else if present[1] { 1 } else { rng.below(2) };
+            let (f, t) = if i == 0 { ("p1.vhd", &t1) } else { ("p2.vhd", &t2) };
+            if present[i] {
+                steps.push(Step { file: f.into(), text: String::new(), kind: "empty".into() });
+            } else {
+                steps.push(Step { file: f.into(), text: t.clone(), kind: if seen[i] { "restore".into() } else { "replace".into() } });
+                seen[i] = true;
+            }
+            present[i] = !present[i];
+        }
+    } else {
+        // `use lib_b.all` + entity lib_b.ent(rtl); the file of the architecture is edited in place
+        let e = "entity ent is\n  port (a : in bit; q : out bit);\nend entity;\n";
+        let a0 = "architecture rtl of ent is\nbegin\n  q <= a;\nend architecture;\n";
+        let a1 = "architecture rtl of ent is\n  signal m : bit;\nbegin\n  m <= a;\n  q <= m;\nend architecture;\n";
+        let inst = if rng.chance(3, 4) { "entity lib_b.ent(rtl)" } else { "entity lib_b.ent" };
+        let top = match rng.below(4) {
+            0 => format!("entity top0 is\nend entity;\n\nlibrary lib_b;\nuse lib_b.all;\narchitecture str of top0 is\n  signal s, t : bit;\nbegin\n  u1 : {inst} port map (a => s, q => t);\nend architecture;\n"),
+            1 => format!("library lib_b;\nentity top0 is\nend entity;\n\narchitecture str of top0 is\n  use lib_b.all;\n  signal s, t : bit;\nbegin\n  u1 : {inst} port map (a => s, q => t);\nend architecture;\n"),
+            2 => format!("library lib_b;\nuse lib_b.all;\nentity top0 is\nend entity;\n\narchitecture str of top0 is\n  signal s, t : bit;\nbegin\n  u1 : {inst} port map (a => s, q => t);\nend architecture;\n"),
+            _ => format!("library lib_b;\nentity top0 is\nend entity;\n\narchitecture str of top0 is\n  signal s, t : bit;\nbegin\n  u1 : {inst} port map (a => s, q => t);\nend architecture;\n"),
+        };
+        libraries.insert("lib_a".into(), vec!["top.vhd".into()]);
+        libraries.insert("lib_b".into(), vec!["e.vhd".into(), "a.vhd".into(), "o.vhd".into()]);
+        initial.insert("top.vhd".into(), top);
+        initial.insert("e.vhd".into(), e.into());
+        initial.insert("a.vhd".into(), a0.into());
+        initial.insert("o.vhd".into(), "package o9 is\n  constant c9 : integer := 9;\nend package;\n".into());
+        let mut cur_a = a0.to_string();
+        let mut cur_e = e.to_string();
+        while steps.len() < n {
+            match rng.below(10) {
+                0..=4 => {
+                    // move the architecture down: comment lines / an unrelated unit above it
+                    let pre = match rng.below(3) {
+                        0 => "-- moved\n\n".to_string(),
+                        1 => "-- a\n-- b\n-- c\n\n".to_string(),
+                        _ => "package filler is\nend package;\n\n".to_string(),
+                    };
+                    cur_a = if cur_a.is_empty() { a0.to_string() } else { format!("{pre}{cur_a}") };
+                    steps.push(Step { file: "a.vhd".into(), text: cur_a.clone(), kind: "shift".into() });
+                }
+                5 => {
+                    cur_e = format!("-- moved\n{cur_e}");
+                    steps.push(Step { file: "e.vhd".into(), text: cur_e.clone(), kind: "shift".into() });
+                }
+                6 | 7 => {
+                    cur_a = if cur_a.contains("signal m") { a0.to_string() } else { a1.to_string() };
+                    steps.push(Step { file: "a.vhd".into(), text: cur_a.clone(), kind: "replace".into() });
+                }
+                _ => {
+                    if cur_a.is_empty() {
+                        cur_a = a0.to_string();
+                        steps.push(Step { file: "a.vhd".into(), text: cur_a.clone(), kind: "restore".into() });
+                    } else {
+                        cur_a = String::new();
+                        steps.push(Step { file: "a.vhd".into(), text: String::new(), kind: "empty".into() });
+                    }
+                }
+            }
+        }
+    }
+    History { id, libraries, initial, lints, steps }
+}
+
+
 fn gen_history(rng: &mut Rng, id: String, max_steps: usize) -> History {
-    if rng.chance(1, 4) {
+    if rng.chance(1, 3) {
+        if rng.chance(2, 5) {
+            return gen_scenario2(rng, id, max_steps);
+        }
         return gen_scenario(rng, id, max_steps);
     }
     let mut libs: Vec<String> = vec!["lib_a".into(), "lib_b".into()];
@@ -1353,6 +1474,16 @@ fn gen_history(rng: &mut Rng, id: String, max_steps: usize) -> History {
                 kind: kind.to_string(),
             });
         };
+        if r >= 92 {
+            // shift: insert comment lines at the top of a file (positions move, tokens do not)
+            let nonempty: Vec<String> = files.iter().map(|f| f.0.clone()).filter(|f| !cur[f].is_empty()).collect();
+            if !nonempty.is_empty() {
+                let f = rng.pick(&nonempty).clone();
+                let t = format!("-- shifted\n\n{}", cur[&f]);
+                push(&mut steps, &mut cur, &mut prev, &f, t, "shift");
+                continue;
+            }
+        }
         if r < 10 {
             // empty a file
             let mut cands: Vec<String> = files.iter().map(|f| f.0.clone()).collect();
